@@ -14,6 +14,7 @@ import (
 	"encoding/json"
 	"flag"
 	"fmt"
+	"io"
 	"os"
 	"os/exec"
 	"path/filepath"
@@ -648,7 +649,8 @@ func coordinatorMain() int {
 				args = append(args, "-cf", *fCF)
 			}
 			cmd := exec.Command(j.bin, args...)
-			cmd.Stderr = os.Stderr
+			var errBuf tailBuffer
+			cmd.Stderr = io.MultiWriter(os.Stderr, &errBuf)
 			cmd.Env = append(os.Environ(), "GOMAXPROCS=2")
 			if j.race {
 				cmd.Env = append(cmd.Env, fmt.Sprintf("GORACE=halt_on_error=0 log_path=%s/race.%d", scratch, j.from))
@@ -709,6 +711,18 @@ func coordinatorMain() int {
 					return
 				}
 				fmt.Fprintf(os.Stderr, "worker %d-%d (race=%v) failed: %v\n", j.from, j.to, j.race, err)
+				// A fatal "stack overflow" inside the code under test cannot be
+				// recovered by the worker; find the run that causes it and
+				// report it (unbounded recursion is a C08 matter, but every
+				// check exercises the same API).
+				if strings.Contains(errBuf.String(), "stack overflow") && strings.Contains(errBuf.String(), "google/safehtml") {
+					if m := isolateCrash(j.bin, prop, tier, j.from, j.to, scratch); m != nil {
+						mu.Lock()
+						msgs = append(msgs, m)
+						mu.Unlock()
+						return
+					}
+				}
 				mu.Lock()
 				infra++
 				mu.Unlock()
@@ -869,6 +883,88 @@ func coordinatorMain() int {
 		return 1
 	}
 	return 0
+}
+
+// tailBuffer keeps the last part of what is written to it.
+type tailBuffer struct {
+	mu sync.Mutex
+	b  []byte
+}
+
+func (t *tailBuffer) Write(p []byte) (int, error) {
+	t.mu.Lock()
+	defer t.mu.Unlock()
+	t.b = append(t.b, p...)
+	if len(t.b) > 1<<16 {
+		// keep head (the fatal error line and the first frames) and tail
+		t.b = append(t.b[:1<<15:1<<15], t.b[len(t.b)-(1<<15):]...)
+	}
+	return len(p), nil
+}
+
+func (t *tailBuffer) String() string {
+	t.mu.Lock()
+	defer t.mu.Unlock()
+	return string(t.b)
+}
+
+// crashes reports whether running the worker on [from,to) dies with a stack
+// overflow, and returns the beginning of its stderr.
+func crashes(bin, prop, tier string, from, to int, scratch string) (bool, string) {
+	cmd := exec.Command(bin, "-worker", "-prop", prop, "-tier", tier, "-seed", fmt.Sprint(*fSeed),
+		"-from", fmt.Sprint(from), "-to", fmt.Sprint(to), "-scratch", scratch, "-nomin")
+	var eb tailBuffer
+	cmd.Stderr = &eb
+	cmd.Env = append(os.Environ(), "GOMAXPROCS=2")
+	done := make(chan error, 1)
+	if cmd.Start() != nil {
+		return false, ""
+	}
+	go func() { done <- cmd.Wait() }()
+	select {
+	case err := <-done:
+		return err != nil && strings.Contains(eb.String(), "stack overflow"), eb.String()
+	case <-time.After(10 * time.Minute):
+		cmd.Process.Kill()
+		return false, ""
+	}
+}
+
+// isolateCrash bisects a worker job that died with a stack overflow down to
+// one run and returns it as a violation of class "crash".
+func isolateCrash(bin, prop, tier string, from, to int, scratch string) *workerMsg {
+	lo, hi := from, to
+	for hi-lo > 1 {
+		mid := (lo + hi) / 2
+		if c, _ := crashes(bin, prop, tier, lo, mid, scratch); c {
+			hi = mid
+		} else if c, _ := crashes(bin, prop, tier, mid, hi, scratch); c {
+			lo = mid
+		} else {
+			return nil // does not reproduce in isolation: leave it an infrastructure failure
+		}
+	}
+	c, trace := crashes(bin, prop, tier, lo, hi, scratch)
+	if !c {
+		return nil
+	}
+	frame := "?"
+	for _, l := range strings.Split(trace, "\n") {
+		if strings.Contains(l, "google/safehtml/template.") || strings.Contains(l, "text/template.") {
+			frame = strings.TrimSpace(l)
+			if i := strings.Index(frame, "("); i > 0 {
+				frame = frame[:i]
+			}
+			if i := strings.LastIndex(frame, "/"); i >= 0 {
+				frame = frame[i+1:]
+			}
+			break
+		}
+	}
+	cs := generateTier(prop, runSeedFor(*fSeed, prop, lo), lo, tier)
+	cs.Seed, cs.Tier = *fSeed, tier
+	return &workerMsg{Type: "violation", Case: cs, Violation: &Violation{Prop: prop, Class: "crash", OpID: -1,
+		Sig: "crash:stack-overflow@" + frame, Detail: "the process died with 'fatal error: stack overflow' (unbounded recursion) while executing this case:\n" + clipN(trace, 1500)}}
 }
 
 func workerTimeout(runs int, race bool) time.Duration {
